@@ -2,13 +2,14 @@
 import numpy as np
 
 from vlib import core, scen, scengen
+from props import trainmodel
 
 IMPORTS = scen.IMPORTS
 TRUSTED = ["sub-model feedback senders are modelled only when all their nodes belong to the running model and are entirely upstream or entirely "
            "downstream of the receiver (the `_fb_flag`s agree); senders straddling the receiver or living partly outside the model are probed by "
            "the implementation oracle only",
-           "fit / teacher-forced train use of targets as forced feedback: implementation oracle only (training is modelled in C06/C10)"]
-ASSUMPTIONS = ["at rest all state proxies are None; receivers add 100 x feedback so that a timing error is an O(100) difference"]
+           "offline fit use of targets as forced feedback and the ESN node: implementation oracle only (offline training is modelled in C06)"] + trainmodel.TRUSTED
+ASSUMPTIONS = ["at rest all state proxies are None; receivers add 100 x feedback so that a timing error is an O(100) difference"] + trainmodel.ASSUMPTIONS
 
 
 def sender_dim(sk):
@@ -77,12 +78,17 @@ def correspondence(ctx):
         if all(o["ok"] for o in obs) and any(abs(v) >= 50 for o in obs for step in o["outs"] for out in step for v in out) or sc["family"] in ("resfb", "resfb-fun"):
             nt.add(repr(scen.jsonable(sc)))
     failing, err = core.run_cases(ctx.pid, IMPORTS, terms, chunk=60)
-    return {"evaluations": n, "distinct_nontrivial": len(nt),
+    # online training of a model (coq/model/TrainModel.v, run/RunTrain.v): Model.train histories, evaluated under the sub-id <pid>_modeltrain
+    mt = trainmodel.run(ctx, ctx.n(40, 300))
+    dist["modeltrain"] = dict({k: mt[k] for k in ("evaluations", "distinct_nontrivial", "distribution", "rule")}, disagree=len(mt["failing"]))
+    if mt["error"]:
+        err = (err or "") + "modeltrain: " + mt["error"]
+    return {"evaluations": n + mt["evaluations"], "distinct_nontrivial": len(nt) + mt["distinct_nontrivial"],
             "rule": "feedback topologies {sender downstream, upstream, outside the forward graph, sub-model upstream, sub-model downstream, reservoir<-readout}; "
                     "histories run / continued run / run with forced feedback keyed by sender or receiver (shift on/off, reset) / call with forced feedback; "
                     "non-trivial = a feedback contribution (x100) is visible in some output; distinct by scenario text",
             "samples": keep[:2], "distribution": dist, "tolerance": "1e-9 relative (qclose)",
-            "failing": [dict(keep[i], index=i) for i in failing], "error": err}
+            "failing": [dict(keep[i], index=i) for i in failing] + mt["failing"], "error": err}
 
 
 # ------------------------------------------------------------------------------------------ oracle on the implementation
@@ -392,6 +398,51 @@ def _judge_teacher_node(rng, tag):
     return None
 
 
+def _judge_teacher_node_gate(rng, tag):
+    """teacher NODE + force_teachers=True beyond the first call with learn_every=1 (found through coq/model/TrainModel.v): the receiver must see
+    the teacher's previous output also after a step on which learn_every skipped the update, and zero at the first step of EVERY train call"""
+    import reservoirpy as rpy
+    rpy.verbosity(0)
+    from reservoirpy.node import Node
+    from reservoirpy.nodes import Input, RLS
+    seen, out = [], []
+
+    def init(node, x=None, **kw):
+        node.set_input_dim(x.shape[1]); node.set_output_dim(x.shape[1])
+
+    def fwd(node, x):
+        seen.append(np.asarray(node.feedback()).ravel().copy())
+        return x
+    k = float(rng.randint(2, 5))
+    T = 5
+    X = scen.fl(scengen.rows(rng, T, 1))
+    X[:, 0] += 3.0          # teacher outputs k*x+1 stay away from zero and from the (near-exact) RLS predictions' coincidences
+    tv = k * X + 1
+    inp = Input(name="tg%s_in" % tag)
+    R = Node(forward=fwd, initializer=init, name="tg%s_R" % tag); ro = RLS(name="tg%s_o" % tag)
+    teacher = Node(forward=lambda n, x: k * x + 1, initializer=init, name="tg%s_T" % tag)
+    R <<= ro
+    m = inp >> [R >> ro, teacher]
+    sc = {"tag": tag, "kind": "teacher-node-gate"}
+    try:
+        seen.clear(); m.train(X, teacher, force_teachers=True, learn_every=2)
+        first = [s.copy() for s in seen[-T:]]
+        seen.clear(); m.train(X, teacher, force_teachers=True)
+        second = [s.copy() for s in seen[-T:]]
+    except Exception as ex:  # noqa: BLE001
+        return [_viol("train:teacher-node:exception", "online training with a teacher node raises %r" % (ex,), sc)]
+    for t in range(1, T):
+        if not np.allclose(first[t], tv[t - 1], atol=1e-9):
+            out.append(_viol("train:teacher-node:not-forced-after-ungated-step", "Model.train(X, teacher_node, force_teachers=True, learn_every=2): at step %d the receiver saw %s "
+                             "(the readout's own output) instead of the teacher's previous output %s" % (t, first[t].tolist(), tv[t - 1].tolist()), sc,
+                             tv[t - 1].tolist(), first[t].tolist()))
+            break
+    if not np.allclose(second[0], 0.0, atol=1e-9):
+        out.append(_viol("train:teacher-node:first-step-not-zero", "second Model.train(X, teacher_node, force_teachers=True) call: at its first step the receiver saw %s "
+                         "(the readout's last output) instead of zero" % (second[0].tolist(),), sc, [0.0], second[0].tolist()))
+    return out
+
+
 def _judge_esn_handwired(rng, tag):
     """ESN node assembled from a reservoir that was wired to the readout by hand (res <<= readout; ESN(reservoir=res, readout=readout)):
     while fitting, the reservoir sees the targets shifted by one step (zero first) like any other offline fit"""
@@ -428,7 +479,47 @@ def _judge_esn_handwired(rng, tag):
     return None
 
 
+def _judge_fit_unforced(rng, tag):
+    """offline fit with force_teachers=False: the targets still fit the readout, but the feedback receiver sees the sender's REAL previous
+    output (the unfitted readout is not run during the fit: its pre-existing state) instead of the targets"""
+    import reservoirpy as rpy
+    rpy.verbosity(0)
+    from reservoirpy.node import Node
+    from reservoirpy.nodes import Ridge
+    seen = []
+
+    def init(node, x=None, **kw):
+        node.set_input_dim(x.shape[1]); node.set_output_dim(x.shape[1])
+
+    def fwd(node, x):
+        fb = np.asarray(node.feedback()).reshape(1, -1)
+        seen.append(fb.ravel().copy())
+        return x + fb[:, :1]
+    T = 5
+    X = scen.fl(scengen.rows(rng, T, 1)); Y = scen.fl(scengen.rows(rng, T, 1, lim=8))
+    sc = {"tag": tag, "kind": "fit-unforced"}
+    R = Node(forward=fwd, initializer=init, name="fu%s_R" % tag); rd = Ridge(ridge=1.0, name="fu%s_rd" % tag)
+    m = R >> rd; R <<= rd
+    try:
+        m.fit([X, X], [Y, Y], force_teachers=False)
+    except Exception as ex:  # noqa: BLE001
+        return _viol("fit:force_teachers=False:unusable", "Model.fit(X, Y, force_teachers=False) raises %r" % (ex,), sc)
+    got = seen[-2 * T:]
+    if len(got) < 2 * T or any(not np.allclose(g, 0.0, atol=1e-12) for g in got):
+        return _viol("fit:unforced:receiver-saw-other-value", "offline fit with force_teachers=False: the receiver saw %s, expected the unfitted readout's own state (zeros)"
+                     % [g.tolist() for g in got], sc)
+    S = np.vstack([np.c_[np.ones(T), X], np.c_[np.ones(T), X]]); Yall = np.vstack([Y, Y])
+    Wref = np.linalg.solve(S.T @ S + 1.0 * np.eye(2), S.T @ Yall)
+    gotW = np.vstack([np.asarray(rd.bias).reshape(1, -1), np.asarray(rd.Wout)])
+    if not np.allclose(gotW, Wref, rtol=1e-8, atol=1e-10):
+        return _viol("fit:unforced:targets-not-used", "offline fit with force_teachers=False: the readout is not the ridge solution on the unforced states and the targets",
+                     sc, Wref.tolist(), gotW.tolist())
+    return None
+
+
 def judge(case):
+    if case.get("kind") == "modeltrain":       # a Model.train history (props/trainmodel.py): decided by the correspondence only
+        return None
     return _judge(case["scenario"])
 
 
@@ -444,9 +535,10 @@ def oracle(ctx, scale=1):
             out.append(v)
     for i in range(ctx.n(3, 20)):
         out += _judge_training(rng, "%d_%d" % (ctx.seed, i))
+        out += _judge_teacher_node_gate(rng, "%d_%d" % (ctx.seed, i))
         for v in (_judge_list_sender(rng, "%d_%d" % (ctx.seed, i)), _judge_esn_forced(rng, "%d_%d" % (ctx.seed, i)),
                   _judge_deep_fit_forcing(rng, "%d_%d" % (ctx.seed, i)), _judge_teacher_node(rng, "%d_%d" % (ctx.seed, i)),
-                  _judge_esn_handwired(rng, "%d_%d" % (ctx.seed, i))):
+                  _judge_esn_handwired(rng, "%d_%d" % (ctx.seed, i)), _judge_fit_unforced(rng, "%d_%d" % (ctx.seed, i))):
             if v:
                 out.append(v)
     return {"evaluations": n + ctx.n(3, 20), "violations": out,
@@ -454,9 +546,18 @@ def oracle(ctx, scale=1):
 
 
 def replay(payload):
+    mt = [c for c in payload.get("corr_cases", []) if c.get("kind") == "modeltrain"]
+    if mt:                                     # a disagreeing Model.train history stored by the correspondence
+        return trainmodel.replay(mt[0])
     sc = payload["scenario"]
     if sc.get("kind") == "deep-fit":
         vs = [v for v in (_judge_deep_fit_forcing(core.random.Random(i), "rd%d" % i) for i in range(4)) if v]
+        return {"violates": bool(vs), "detail": vs[:1]}
+    if sc.get("kind") == "fit-unforced":
+        vs = [v for v in (_judge_fit_unforced(core.random.Random(i), "rf%d" % i) for i in range(3)) if v]
+        return {"violates": bool(vs), "detail": vs[:1]}
+    if sc.get("kind") == "teacher-node-gate":
+        vs = [v for i in range(3) for v in _judge_teacher_node_gate(core.random.Random(i), "rg%d" % i) if v["key"] == payload.get("key", v["key"])]
         return {"violates": bool(vs), "detail": vs[:1]}
     if sc.get("kind") == "teacher-node":
         vs = [v for v in (_judge_teacher_node(core.random.Random(i), "rt%d" % i) for i in range(4)) if v]
